@@ -199,6 +199,13 @@ func (its *WiredDatatype) updateStateOfDatatype(
 		its.id = ppp.DUID
 
 		err = its.wire.OnChangeDatatypeState(its.Datatype, its.state)
+		if ppp.GetPushPullPackOption().HasSubscribeBit() {
+			// the rollback point taken while the response was checked still carries the identifiers
+			// the replica had before it subscribed; take it again with the subscribed ones.
+			if rErr := its.ResetTransaction(); rErr != nil && err == nil {
+				err = rErr
+			}
+		}
 	case model.StateOfDatatype_SUBSCRIBED:
 	case model.StateOfDatatype_DUE_TO_UNSUBSCRIBE:
 	case model.StateOfDatatype_CLOSED:
